@@ -20,7 +20,7 @@ EXPLANATION = "bounded exhaustive scenario enumeration against per-interval refe
 MIN_NONTRIVIAL_FRACTION = 0.3
 MAX_S = {"quick": 900, "thorough": 7200}
 
-FEATS = dict(grids=["8x6h", "4x6h_off", "12h_partial", "7xh_autumn", "12x2h"], price_pairs=S.PRICE_PAIRS[:1], bases=["one", "two"],
+FEATS = dict(grids=["8x6h", "4x6h_off", "12h_partial", "7xh_autumn", "12x2h", "8x6h_d"], price_pairs=S.PRICE_PAIRS[:1], bases=["one", "two"],
              extras=["mc", "ob", "dem"], modes=["split:12h", "split:d", "split:5h", "split:2d"],
              caps=1, extra_costs=1, wacc=1, window=1, takes=1, sto_eff=1, sto_costs=1, sto_inflow=1, sto_levels=1, sto_two_nodes=1,
              tr_dir=1, tr_eff=1, tr_costs=1, tr_takes=1, mc_factors=1)
